@@ -30,7 +30,11 @@ RULE = (
     "held until their addressee leads again; an old-term entry reaching a majority only under a later leader while a third "
     "node holds an unreplicated entry of a term in between; catchup (3 nodes): a deposed leader with a long committed prefix "
     "and a stale suffix is caught up, after delayed rejections and lost retries, from far below its divergence point by a "
-    "leader whose commit index lies beyond it. calm: loss-free network with all delays "
+    "leader whose commit index lies beyond it; revote: restarts modelled as a user does them (CrashNode window, then the "
+    "node's public start() is called again) in the middle of elections with slow RequestVotes in flight - 60% aimed at the "
+    "first election (two equal-timeout candidates, voters with long timeouts crashed and start()ed before the slower "
+    "candidate's RequestVote arrives), 40% many short windows at arbitrary election instants; 60% of the restarting crash "
+    "windows of chaos / duel are also followed by start(). calm: loss-free network with all delays "
     "< 1/10 of the minimum election timeout and heartbeat <= 1/3 of it; once one leader is established (all nodes in its "
     "term and naming it, continuously for 2 max-delays) K commands are submitted to it; every node must have applied "
     "exactly those K commands in submission order and every future must be resolved within (K+3)*(heartbeat + 2*max delay) "
@@ -45,7 +49,8 @@ ASSUMPTIONS = [
     "Log changes only by suffix truncation + append (its public API); the incremental diff relies on LogEntry identity and is "
     "backed by a full scan of every log every 512 samples and at the end of the run",
     "crash = the library's CrashNode (events to the node are dropped, all node state is kept); crash windows of one node do not "
-    "overlap (overlapping windows are C06's subject)",
+    "overlap (overlapping windows are C06's subject); a restart is either just the end of the window (timers that fell into it "
+    "stay lost) or, as a user would do it, followed by a second call of the node's public start()",
     "'committed' = covered by some node's own commit_index; 'later leader' = a node observed LEADER in a term greater than the "
     "term of the node that first committed the entry, at or after that moment",
     "the k-th apply() call on a node's state machine is its apply of log index k (apply() does not receive the index); this is "
@@ -92,8 +97,14 @@ def _faults(rng: random.Random, names: list[str], dur: float, et: float) -> list
             continue
         at = _r(rng.uniform(lo, dur * 0.9))
         if rng.random() < 0.85:
-            restart = _r(at + rng.choice([0.5, 1, 3, 6]) * et * rng.uniform(0.5, 1.5))
+            restart = _r(at + rng.choice([0.05, 0.5, 1, 3, 6]) * et * rng.uniform(0.5, 1.5))
             busy[node] = restart + 0.01
+            if rng.random() < 0.6:
+                # restart as a user would do it: start() is called again shortly after the node is back
+                start_at = _r(restart + rng.choice([0.001, 0.02, 0.1]) * et)
+                busy[node] = start_at + 0.01
+                faults.append({"kind": "crash", "node": node, "at": at, "restart_at": restart, "start_at": start_at})
+                continue
         else:
             restart = None
             busy[node] = dur
@@ -377,6 +388,117 @@ def gen_catchup(rng: random.Random, tier: str) -> dict:
     }
 
 
+def _gen_revote_aimed(rng: random.Random) -> dict:
+    """Two candidates A, B with (nearly) the same timeout, the other nodes time out much later (per-node
+    election timeouts are constructor parameters).  A is close to the voters, B's RequestVotes to them are
+    slow and A's heartbeats to B slower still.  Each voter is crashed shortly after the election starts,
+    restarted and start()ed again before B's RequestVote of the same term arrives.  A voter that kept its
+    vote refuses B; every instant is jittered, so in many cases the windows miss."""
+    n = rng.choice([3, 3, 3, 5])
+    names = [f"n{i}" for i in range(n)]
+    rng.shuffle(names)
+    A, B, voters = names[0], names[1], names[2:]
+    E = rng.choice([0.5, 1.0, 2.0])
+    w = rng.choice([0.0, 0.0, 0.005])
+    d_fast = rng.uniform(0.003, 0.02) * E
+    d_bv = rng.uniform(0.2, 0.6) * E  # B -> voters
+    d_ab = min(0.95 * E, d_bv + rng.uniform(0.1, 0.5) * E)  # A -> B (B must not hear the winner in time)
+    base = 0.01 * E
+    asym = {f"{a}>{b}": _r(d_fast / base) for a in names for b in names if a != b}
+    for v in voters:
+        asym[f"{B}>{v}"] = _r(d_bv * rng.uniform(0.9, 1.1) / base)
+    asym[f"{A}>{B}"] = _r(d_ab / base)
+    if rng.random() < 0.5:
+        asym[f"{B}>{A}"] = _r(rng.uniform(0.2, 0.9) * E / base)
+    faults = []
+    for v in voters:
+        if n == 5 and rng.random() < 0.15:
+            continue
+        at = _r(E * (1 + w) + d_fast + rng.uniform(0.01, max(0.02, d_bv / E - 0.15)) * E)
+        restart = _r(at + rng.uniform(0.01, 0.1) * E)
+        start_at = _r(restart + rng.choice([0.001, 0.01, 0.03]) * E)
+        faults.append({"kind": "crash", "node": v, "at": at, "restart_at": restart, "start_at": start_at})
+    dur = _r(E * rng.choice([3, 5]))
+    et_node = {v: [_r(6 * E), _r(7 * E)] for v in voters}
+    return {
+        "n": n,
+        "et": [E, _r(E * (1 + w))],
+        "et_node": et_node,
+        "hb": _r(E * rng.choice([0.1, 0.2])),
+        "seed": rng.randrange(1 << 30),
+        "duration": dur,
+        "script": {"seed": rng.randrange(1 << 30), "family": "fixed", "base": [base, base], "asym": asym, "loss": 0.0, "rules": []},
+        "faults": faults,
+        "ticks": [{"t": _r(rng.uniform(1.5 * E, dur * 0.95)), "mode": "all", "pick": 0} for _ in range(2)],
+        "roles": {"A": A, "B": B},
+    }
+
+
+def gen_revote(rng: random.Random, tier: str) -> dict:
+    """Restarts in the middle of elections, done the way a user restarts a node: CrashNode window, then the
+    node's public start() is called again (the only way to re-arm its election timer).
+
+    Election timeouts are (almost) equal, so several candidates stand in the same term again and again;
+    a few directed links are slow (their RequestVotes / heartbeats arrive a good part of a timeout late);
+    many short crash windows (each followed by start()) are aimed at the moments just after timeouts expire,
+    i.e. right after votes were granted, while slower RequestVotes of the same term are still in flight.
+    """
+    if rng.random() < 0.6:
+        return _gen_revote_aimed(rng)
+    n = rng.choice([3, 3, 5])
+    names = [f"n{i}" for i in range(n)]
+    E = rng.choice([0.5, 1.0])
+    w = rng.choice([0.0, 0.01, 0.04])
+    hb = _r(E * rng.choice([0.1, 0.2, 0.33]))
+    dur = _r(E * rng.choice([8, 12]))
+    fast = [0.002 * E, 0.02 * E]
+    asym = {}
+    for a in names:
+        for b in names:
+            if a != b:
+                asym[f"{a}>{b}"] = rng.choice([1, 1, 1, 10, 25, 50])  # x0.02E -> up to one timeout
+    script = {
+        "seed": rng.randrange(1 << 30),
+        "family": "asym",
+        "base": fast,
+        "asym": asym,
+        "loss": rng.choice([0.0, 0.0, 0.05]),
+        "rules": [],
+    }
+    faults = []
+    busy: dict[str, float] = {}
+    # elections happen about every E (+ retries): aim windows shortly after multiples of the timeout
+    for _ in range(rng.randrange(3, 9)):
+        node = rng.choice(names)
+        k = rng.randrange(1, int(dur / E))
+        at = _r(k * E * (1 + w / 2) + rng.uniform(0.0, 0.35) * E)
+        if at <= busy.get(node, 0.0) or at >= dur * 0.95:
+            continue
+        restart = _r(at + rng.uniform(0.02, 0.3) * E)
+        start_at = _r(restart + rng.choice([0.001, 0.01, 0.05]) * E)
+        busy[node] = start_at + 0.01
+        faults.append({"kind": "crash", "node": node, "at": at, "restart_at": restart, "start_at": start_at})
+    faults.sort(key=lambda f: f["at"])
+    # keep windows of one node disjoint
+    clean, last = [], {}
+    for f in faults:
+        if f["at"] > last.get(f["node"], -1.0):
+            clean.append(f)
+            last[f["node"]] = f["start_at"] + 0.01
+    m = rng.choice([2, 5, 10])
+    ts = sorted(_r(rng.uniform(1.5 * E, dur * 0.97)) for _ in range(m))
+    return {
+        "n": n,
+        "et": [E, _r(E * (1 + w))],
+        "hb": hb,
+        "seed": rng.randrange(1 << 30),
+        "duration": dur,
+        "script": script,
+        "faults": clean,
+        "ticks": [{"t": t, "mode": "all", "pick": 0} for t in ts],
+    }
+
+
 def gen_calm(rng: random.Random, tier: str) -> dict:
     n = rng.choice([3, 4, 5])
     names = [f"n{i}" for i in range(n)]
@@ -436,8 +558,27 @@ def run_chaos(case: dict) -> Result:
                         mon.submit(i, f"c{k}.{j}@{mon.names[i]}")
             return None
 
-        client = M.Client("client", act)
+        def dispatch(event):
+            if event.event_type == "OperatorStart":
+                # the operator brings a restarted node back the way a user of the library would:
+                # by calling its public start() again (the only way to re-arm its election timer)
+                mon.now_ns = event.time.nanoseconds
+                i = mon.idx[event.context["metadata"]["node"]]
+                if mon.crashed[i]:
+                    return None
+                out = nodes[i].start()
+                mon.restarts_with_start += 1
+                mon.last_start_seq[i] = mon.seq
+                mon.note("start()", mon.names[i])
+                mon.sample(i)
+                return out
+            return act(event)
+
+        client = M.Client("client", dispatch)
         evs = [M.client_event(tk["t"], client, "ClientTick", True, k=k) for k, tk in enumerate(ticks)]
+        for f in case.get("faults") or []:
+            if f["kind"] == "crash" and f.get("start_at") is not None:
+                evs.append(M.client_event(f["start_at"], client, "OperatorStart", True, node=f["node"]))
         return client, evs
 
     mon, status = M.run_cluster(case, res, factory, end_time=case["duration"])
@@ -568,8 +709,9 @@ FAMILIES = {
     "staleack": Family("staleack", gen_staleack, run_chaos, case_timeout=90.0),
     "fig8": Family("fig8", gen_fig8, run_chaos, case_timeout=90.0),
     "catchup": Family("catchup", gen_catchup, run_chaos, case_timeout=90.0),
+    "revote": Family("revote", gen_revote, run_chaos, case_timeout=90.0),
 }
 BUDGET = {
-    "quick": {"chaos": 2400, "duel": 1200, "calm": 400, "staleack": 200, "fig8": 200, "catchup": 150},
-    "thorough": {"chaos": 150000, "duel": 80000, "calm": 20000, "staleack": 6000, "fig8": 6000, "catchup": 4000},
+    "quick": {"chaos": 2400, "duel": 1200, "calm": 400, "staleack": 200, "fig8": 200, "catchup": 150, "revote": 300},
+    "thorough": {"chaos": 150000, "duel": 80000, "calm": 20000, "staleack": 6000, "fig8": 6000, "catchup": 4000, "revote": 10000},
 }
